@@ -87,12 +87,44 @@ OkSigPrep(ev) ==
   /\ (ev.fn = "revocation" => HasOne(subs, 29, <<ev.revcode>> \o ev.reason))
   /\ ev.md = <<>>                                                      \* preparing a signature hashes nothing
 
+(* a passphrase-protected secret key packet (usage octet 254) as emitted by PacketSecEncode / PacketSsbEncode:   *)
+(* rng = the octet strings drawn from the random source (salt, IV), md = hash contexts in the order used:        *)
+(* first the SHA-1 over the secret MPIs (appended before encryption), then the S2K contexts                      *)
+OkSecEnc(ev) ==
+  LET pub == BodyPubV4(ev.time, ev.algo, MPIs(ev.mpis))
+      plain == MPI(ev.x)
+      d == LenNewDecode(Tail(ev.out))
+      body == Drop(ev.out, 1 + d.hl)
+      salt == ev.rng[1]
+      iv == ev.rng[2]
+      count == body[Len(pub) + 13]
+      need == S2KContexts(32, HashLen(HashSHA256))
+  IN /\ Len(ev.rng) = 2 /\ Len(salt) = 8 /\ Len(iv) = 16
+     /\ ev.out[1] = TagNew(IF ev.sub THEN 7 ELSE 5)
+     /\ d.hl > 0 /\ ~d.part /\ d.len = <<0, Len(body)>>
+     /\ Len(body) = Len(pub) + 4 + 8 + 1 + 16 + Len(plain) + 20
+     /\ Take(body, Len(pub) + 29) = pub \o SecretS2K254Head(9, HashSHA256, salt, count, iv)
+     /\ Len(ev.md) >= 1 + need
+     /\ ev.md[1].a = GcryAlgo(HashSHA1) /\ ev.md[1].full /\ ev.md[1].in = plain
+     /\ \A j \in 1..need :
+          LET c == ev.md[1 + j]
+              st == S2KStream(j - 1, salt, ev.pass, TRUE, count)
+          IN /\ c.a = GcryAlgo(HashSHA256)
+             /\ c.n = st.zeros + st.total
+             /\ IF c.full
+                THEN Len(c.in) = c.n /\ \A k \in 1..c.n : c.in[k] = StreamAt(st, k)
+                ELSE /\ c.Z = st.zeros /\ c.P = Len(st.unit) /\ c.per
+                     /\ Len(c.head) >= c.Z + c.P
+                     /\ \A k \in 1..Len(c.head) : c.head[k] = StreamAt(st, k)
+                     /\ \A k \in 1..Len(c.tail) : c.tail[k] = StreamAt(st, c.n - Len(c.tail) + k)
+
 Ok(ev) == CASE ev.e = "Fpr" -> OkFpr(ev)
             [] ev.e = "KeyId" -> OkKeyId(ev)
             [] ev.e = "SigHash" -> OkSigHash(ev)
             [] ev.e = "S2K" -> OkS2K(ev)
             [] ev.e = "KDF" -> OkKDF(ev)
             [] ev.e = "SigPrep" -> OkSigPrep(ev)
+            [] ev.e = "SecEnc" -> OkSecEnc(ev)
             [] OTHER -> FALSE
 
 Init == l = 1
